@@ -1,6 +1,7 @@
 import NanoVerif.Model.EarlyStopping
 import Mathlib.Algebra.Order.Field.Basic
 import Mathlib.Tactic.Linarith
+import Mathlib.Data.List.Induction
 /-!
   C11 — helper lemmas about the generated step function `Gen.EarlyStopping.done` and the history functions of
   `Model/EarlyStopping.lean`. The three step lemmas are the only place where the generated text is unfolded; every
@@ -93,6 +94,19 @@ theorem answers_length (eps : α) (pat : Nat) (s : State α) (l : List (Call α)
   induction l generalizing s with
   | nil => rfl
   | cons c cs ih => simp [answers, ih]
+
+/-- every answer of a history is the answer of `done` to one of its calls in the state the calls before it left -/
+theorem mem_answers (eps : α) (pat : Nat) (s : State α) (l : List (Call α)) (b : Bool) (hb : b ∈ answers eps pat s l) :
+    ∃ pre c post, l = pre ++ c :: post ∧ b = (done eps pat (stateAfter eps pat s pre) c).2 := by
+  induction l using List.reverseRecOn with
+  | nil => simp [answers] at hb
+  | append_singleton l c ih =>
+    rw [answers_append] at hb
+    rcases List.mem_append.mp hb with hb | hb
+    · obtain ⟨pre, d, post, e, hd⟩ := ih hb
+      exact ⟨pre, d, post ++ [c], by rw [e]; simp, hd⟩
+    · simp only [answers, List.mem_singleton] at hb
+      exact ⟨l, c, [], rfl, hb⟩
 
 /-- calls that do not improve on the stored value leave the state alone -/
 theorem stateAfter_of_no_improve (eps : α) (pat : Nat) (s : State α) (l : List (Call α))
